@@ -66,40 +66,54 @@ type affMatCase struct {
 func (c *checker) affMat(k *affMatCase) {
 	n, m := len(k.Cols[0]), len(k.Cols)
 	p := permFor(c.seed, c.line, n, 2)
-	data := mat.NewDense(n, m, nil)
+	rows := make([][]float64, n)
+	for i := range rows {
+		rows[i] = make([]float64, m)
+	}
 	for j, col := range k.Cols {
 		cp := permute(k.T.apply(col), p)
 		for i := range cp {
-			data.Set(i, j, cp[i])
+			rows[i][j] = cp[i]
 		}
 	}
 	w := permute(weights(k.W, k.Nilw), p)
-	ctx := fmt.Sprintf("columns 2^%d*v+2^%d*%d of %v, w=%v perm=%v", k.T.S, k.T.K, k.T.C, k.Cols, w, p)
-	check := func(name string, want [][]ev, lim func(i, j int) *big.Rat, f func(dst *mat.SymDense)) {
-		if len(want) == 0 {
-			c.sum.Count("outside_domain_not_checked", 1)
-			return
-		}
-		var dst mat.SymDense
-		if !c.call(name, func() { f(&dst) }) {
-			return
-		}
-		for i := 0; i < m; i++ {
-			for j := 0; j < m; j++ {
-				c.sum.Count("values", 1)
-				got := dst.At(i, j)
-				l := lim(i, j)
-				if !want[i][j].matchesTol(got, l) {
-					lf, _ := l.Float64()
-					c.fail("stat:"+name+":value", fmt.Sprintf("%s[%d][%d] %s: got %.17g, specification (pairwise scalar definition, affine equivariance) says %s (tolerance %.3g)",
-						name, i, j, ctx, got, want[i][j].String(), lf))
+	// the compact representation and one other (reps.go), drawn by the case
+	reps := matReps(rows, p[0]+n)
+	pick := 1 + int(permFor(c.seed, c.line, len(reps)-1, 5)[0])
+	for _, rp := range []repMat{reps[0], reps[pick]} {
+		ctx := fmt.Sprintf("columns 2^%d*v+2^%d*%d of %v, w=%v perm=%v data as %s", k.T.S, k.T.K, k.T.C, k.Cols, w, p, rp.name)
+		sfx := repSfx(rp.name)
+		check := func(name string, want [][]ev, lim func(i, j int) *big.Rat, f func(dst *mat.SymDense)) {
+			if len(want) == 0 {
+				c.sum.Count("outside_domain_not_checked", 1)
+				return
+			}
+			var dst mat.SymDense
+			c.sum.Count("matrix_calls:"+rp.name+"/dst=empty", 1)
+			if !c.call(name, func() { f(&dst) }) {
+				return
+			}
+			for i := 0; i < m; i++ {
+				for j := 0; j < m; j++ {
+					c.sum.Count("values", 1)
+					got := dst.At(i, j)
+					l := lim(i, j)
+					if !want[i][j].matchesTol(got, l) {
+						lf, _ := l.Float64()
+						c.fail("stat:"+name+":value"+sfx, fmt.Sprintf("%s[%d][%d] %s: got %.17g, specification (pairwise scalar definition, affine equivariance) says %s (tolerance %.3g)",
+							name, i, j, ctx, got, want[i][j].String(), lf))
+					}
 				}
 			}
+			if bad := rp.intact(); bad != "" {
+				c.fail("stat:"+name+":input-modified"+sfx, fmt.Sprintf("%s %s: %s", name, ctx, bad))
+			}
 		}
+		covlim := k.Covtol.inner()
+		data := rp.m
+		check("CovarianceMatrix", k.Cov, func(i, j int) *big.Rat { return covlim }, func(dst *mat.SymDense) { gstat.CovarianceMatrix(dst, data, w) })
+		check("CorrelationMatrix", k.Corr, func(i, j int) *big.Rat { return k.Corrtol[i][j].inner() }, func(dst *mat.SymDense) { gstat.CorrelationMatrix(dst, data, w) })
 	}
-	covlim := k.Covtol.inner()
-	check("CovarianceMatrix", k.Cov, func(i, j int) *big.Rat { return covlim }, func(dst *mat.SymDense) { gstat.CovarianceMatrix(dst, data, w) })
-	check("CorrelationMatrix", k.Corr, func(i, j int) *big.Rat { return k.Corrtol[i][j].inner() }, func(dst *mat.SymDense) { gstat.CorrelationMatrix(dst, data, w) })
 }
 
 // ---- family "afford" ----------------------------------------------------------
